@@ -419,10 +419,11 @@ contract(F + "PositionalSporadicDissimilarity.compile_d_mat",
                      "C04", name="the-kernel-computes-the-documented-formula-with-this-object's-delta_empty")],
          serves={"C04"})
 
-contract(F + "AbstractDissimilarity.check_if_dissim", params={"self": DISSIM()}, modifies=[], trusted=True,
+contract(F + "AbstractDissimilarity.check_if_dissim", params={"self": DISSIM()}, modifies=[],
          raises={"ValueError": {}},
-         notes="ASSUMED: draws three random unit pairs with the stdlib generator and raises ValueError when the compiled kernel is not symmetric "
-               "or not zero on identical units; it changes nothing (reads self.d_mat and self.categories only)",
+         loops={"L0": dict(match="for _ in range(3)", inv=[])},
+         notes="proved frame: draws three random unit pairs with the stdlib generator and raises ValueError when the compiled kernel is not "
+               "symmetric or not zero on identical units; it changes nothing (reads self.d_mat and self.categories only)",
          serves={"C04"})
 
 POS_INV = (ROWS + "implies(x[2] > 0 and y[2] > 0, self.d_mat(x, y) == POS(x[0], x[1], x[2], y[0], y[1], y[2]) * self.delta_empty))")
